@@ -283,7 +283,11 @@ def check_enforces(ctx):
         loop = [n for n in ast.walk(vt[0]) if isinstance(n, ast.For)]
         ok = len(loop) == 1 and 'self.validators' in norm(loop[0].iter)
         ctx.ob(ok, u, 'every validator is run, in order')
-        vcalls = [c for c in ast.walk(vt[0]) if isinstance(c, ast.Call) and isinstance(c.func, ast.Name) and c.func.id == 'validator']
+        vname = None
+        if loop:
+            tg = loop[0].target
+            vname = tg.elts[-1].id if isinstance(tg, ast.Tuple) and is_name(tg.elts[-1]) else (tg.id if is_name(tg) else None)
+        vcalls = [c for c in ast.walk(vt[0]) if isinstance(c, ast.Call) and isinstance(c.func, ast.Name) and c.func.id == vname]
         ctx.ob(len(vcalls) == 1 and is_name(vcalls[0].args[0], u.params[1]), u, 'validators receive the checked value')
         if vcalls:
             vn = cfg.node_containing(vcalls[0])
@@ -302,8 +306,11 @@ def check_enforces(ctx):
         ctx.ob(all(u.node.body.index(t) < idx for t in tops if t is not tail[0]), u, 'the verdict comes after every condition')
     # the value checked: target, or the spec's value when spec is not T; the original target is returned
     rets = [n for n in u.node.body if isinstance(n, ast.Return)]
-    first = u.node.body[0]
-    ok = isinstance(first, ast.Assign) and is_name(first.value, u.params[1]) and len(rets) == 1 and is_name(rets[0].value, first.targets[0].id)
+    saved = [n for n in u.node.body if isinstance(n, ast.Assign) and is_name(n.value, u.params[1]) and is_name(n.targets[0])]
+    first = saved[0] if saved else None
+    evs0 = evaluator_calls(p, u)
+    ok = first is not None and len(rets) == 1 and is_name(rets[0].value, first.targets[0].id) and \
+        (not evs0 or u.node.body.index(first) < min(u.node.body.index(s_) for s_ in u.node.body if any(e in ast.walk(s_) for e in evs0)))
     ctx.ob(ok, u, 'a passing Check returns the original target: %s' % [norm(r) for r in rets])
     evs = evaluator_calls(p, u)
     ok = len(evs) == 1 and is_name(evs[0].args[0], u.params[1]) and isinstance(evs[0].args[1], ast.Attribute) and evs[0].args[1].attr == 'spec'
